@@ -23,11 +23,20 @@ TMO = 60.0          # per process; a timeout is re-run once at 10x before it cou
 # ---------------------------------------------------------------------------------------------------
 # plumbing
 
-def build():
+def build(private_dir):
+    """Build (cached) and copy the four executables into the run's scratch directory, so that cache pruning by
+    a concurrent check of another tree cannot pull them away in the middle of the run."""
     cli = vlib.build_cli()
     helper = vlib.build_harness("c18_libdec", ["harness/c18_libdec.c"], "fast")
-    return {"xz": os.path.join(cli, "xz"), "xzdec": os.path.join(cli, "xzdec"),
-            "lzmadec": os.path.join(cli, "lzmadec"), "helper": helper}
+    src = {"xz": os.path.join(cli, "xz"), "xzdec": os.path.join(cli, "xzdec"),
+           "lzmadec": os.path.join(cli, "lzmadec"), "helper": helper}
+    bind = os.path.join(private_dir, "bin")
+    os.makedirs(bind, exist_ok=True)
+    out = {}
+    for k, p in src.items():
+        out[k] = os.path.join(bind, os.path.basename(p))
+        shutil.copy2(p, out[k])
+    return out
 
 
 def prun(cmd, stdin=None, stdout=subprocess.PIPE, cwd=None):
@@ -36,7 +45,7 @@ def prun(cmd, stdin=None, stdout=subprocess.PIPE, cwd=None):
         try:
             r = subprocess.run(cmd, stdin=stdin if stdin is not None else subprocess.DEVNULL, stdout=stdout,
                                stderr=subprocess.PIPE, env=ENV, cwd=cwd, timeout=tmo)
-            return r.returncode, (r.stdout or b""), r.stderr.decode("latin-1")[-300:]
+            return r.returncode, (r.stdout or b""), r.stderr.decode("latin-1")[-600:]
         except subprocess.TimeoutExpired:
             if hasattr(stdin, "seek"):
                 stdin.seek(0)
@@ -65,6 +74,12 @@ def libdec(B, jobs, wd):
                     "heur": d["heur"] == "1", "out": data, "left": int(d["left"])})
         assert len(data) == int(d["out"])
     return out
+
+
+def emsg(err):
+    """Last diagnostic of a tool without the program / file name prefix (those contain scratch paths)."""
+    lines = [l for l in err.strip().splitlines() if l.strip()]
+    return lines[-1].rsplit(": ", 1)[-1][:100] if lines else ""
 
 
 def short(b, n=24):
@@ -204,7 +219,7 @@ def run_file_case(B, wd, inp_path, ext, data, L, case):
             if rc is None:
                 return "hang", "timed out"
             if rc < 0:
-                return "killed", "signal %d: %s" % (-rc, err)
+                return "killed", "signal %d: %s" % (-rc, emsg(err))
             if out:
                 return "stdout-not-empty", "xz -d wrote %d bytes to stdout" % len(out)
             for erc, eout in alts:
@@ -213,7 +228,7 @@ def run_file_case(B, wd, inp_path, ext, data, L, case):
             erc, eout = alts[0]
             if rc != erc:
                 return "status", "exit status %d, expected %d (library: ret=%d unsupported_check=%d) %s" % (
-                    rc, erc, lib["ret"], lib["unsup"], err.strip()[-120:])
+                    rc, erc, lib["ret"], lib["unsup"], emsg(err))
             if erc == 1 and created:
                 return "file-left-after-error", "target exists (%d bytes) although decoding failed (library ret=%d)" % (
                     len(content), lib["ret"])
@@ -226,7 +241,7 @@ def run_file_case(B, wd, inp_path, ext, data, L, case):
         if rc is None:
             return "hang", "timed out"
         if rc < 0:
-            return "killed", "signal %d: %s" % (-rc, err)
+            return "killed", "signal %d: %s" % (-rc, emsg(err))
         for erc, eout in alts:
             if rc == erc and out == eout:
                 return None
@@ -235,7 +250,7 @@ def run_file_case(B, wd, inp_path, ext, data, L, case):
             cls, txt = describe_diff(out, eout)
             return "stdout-" + cls, txt + " (library ret=%d; exit status %d, expected %d)" % (lib["ret"], rc, erc)
         return "status", "exit status %d, expected %d (library: ret=%d unsupported_check=%d) %s" % (
-            rc, erc, lib["ret"], lib["unsup"], err.strip()[-120:])
+            rc, erc, lib["ret"], lib["unsup"], emsg(err))
     # xzdec / lzmadec
     lib = L["stream"] if tool == "xzdec" else L["alone"]
     if mode == "file":
@@ -246,7 +261,7 @@ def run_file_case(B, wd, inp_path, ext, data, L, case):
     if rc is None:
         return "hang", "timed out"
     if rc < 0:
-        return "killed", "signal %d: %s" % (-rc, err)
+        return "killed", "signal %d: %s" % (-rc, emsg(err))
     if out != lib["out"]:
         cls, txt = describe_diff(out, lib["out"])
         return "stdout-" + cls, txt + " (library ret=%d)" % lib["ret"]
@@ -487,9 +502,9 @@ def run_sink(B, wd, comp, sink, T, lib, extra=()):
             got = open(tgt, "rb").read()
         shutil.rmtree(dd, ignore_errors=True)
         if rc is None or rc < 0:
-            return ("killed" if rc else "hang", err), holes
+            return ("killed" if rc else "hang", emsg(err)), holes
         if rc != exp_rc:
-            return ("status", "exit status %d, expected %d: %s" % (rc, exp_rc, err.strip()[-120:])), holes
+            return ("status", "exit status %d, expected %d: %s" % (rc, exp_rc, emsg(err))), holes
         if exp_rc:
             return (("file-left-after-error", "target exists after a failed decode") if created else None), holes
         if not created:
@@ -519,13 +534,13 @@ def run_sink(B, wd, comp, sink, T, lib, extra=()):
         got = open(f, "rb").read()
         os.unlink(f)
     if rc is None or rc < 0:
-        return ("killed" if rc else "hang", err), holes
+        return ("killed" if rc else "hang", emsg(err)), holes
     exp = sink_expected(sink, lib["out"])
     if got != exp or size != len(exp):
         cls, txt = describe_diff(got, exp)
         return ("sink-" + cls, txt + " st_size=%d (exit status %d)" % (size, rc)), holes
     if rc != exp_rc:
-        return ("status", "exit status %d, expected %d: %s" % (rc, exp_rc, err.strip()[-120:])), holes
+        return ("status", "exit status %d, expected %d: %s" % (rc, exp_rc, emsg(err))), holes
     return None, holes
 
 
@@ -722,21 +737,21 @@ def rt_one(B, wd, pname, plain, copts, dopts):
     with open(p, "rb") as f:
         rc, comp, err = prun([B["xz"]] + copts + ["-c"], stdin=f)
     if rc is None or rc < 0:
-        return ("compress-killed" if rc else "compress-hang", err)
+        return ("compress-killed" if rc else "compress-hang", emsg(err))
     if rc != 0:
-        return ("compress-status", "xz %s exits %d: %s" % (" ".join(copts), rc, err.strip()[-160:]))
+        return ("compress-status", "xz %s exits %d: %s" % (" ".join(copts), rc, emsg(err)))
     c = os.path.join(wd, "rt.cmp")
     with open(c, "wb") as f:
         f.write(comp)
     with open(c, "rb") as f:
         rc, out, err = prun([B["xz"]] + dopts + ["-dc"], stdin=f)
     if rc is None or rc < 0:
-        return ("decompress-killed" if rc else "decompress-hang", err)
+        return ("decompress-killed" if rc else "decompress-hang", emsg(err))
     if out != plain:
         cls, txt = describe_diff(out, plain)
-        return ("roundtrip-" + cls, txt + " (decompressor exit status %d: %s)" % (rc, err.strip()[-100:]))
+        return ("roundtrip-" + cls, txt + " (decompressor exit status %d: %s)" % (rc, emsg(err)))
     if rc != 0:
-        return ("decompress-status", "xz -dc exits %d: %s" % (rc, err.strip()[-160:]))
+        return ("decompress-status", "xz -dc exits %d: %s" % (rc, emsg(err)))
     return None
 
 
@@ -799,11 +814,11 @@ def merge(ck, label, res):
 
 def run(tier):
     ck = vlib.Check(PID, tier, "exploration")
-    B = build()
     root = tempfile.mkdtemp(prefix="c18-", dir=vlib.BUILD)
     deadline = ck.deadline - 8
     distinct = set()
     try:
+        B = build(root)
         inputs = gen_inputs(tier, B)
         layouts, nlay = sparse_layouts(S7 if tier == "quick" else S10)
         plains = rt_plaintexts()
@@ -830,7 +845,9 @@ def run(tier):
                 try:
                     distinct.update(merge(ck, label, f.result()))
                 except Exception as e:          # infrastructure (helper failure, pool breakage), never a violation
-                    ck.infra_errors.append("%s task: %r" % (label, e))
+                    msg = "%s task: %r" % (label, e)
+                    if msg not in ck.infra_errors:
+                        ck.infra_errors.append(msg)
         ck.add("distinct", len(distinct))
     finally:
         shutil.rmtree(root, ignore_errors=True)
@@ -858,9 +875,9 @@ def run(tier):
 def replay(path):
     d = json.load(open(path))
     rp = d.get("replay") or {}
-    B = build()
     root = tempfile.mkdtemp(prefix="c18r-", dir=vlib.BUILD)
     try:
+        B = build(root)
         part = rp.get("part")
         if part == "files":
             data = bytes.fromhex(rp["input_hex"])
